@@ -24,9 +24,9 @@ static zckCtx *mk_zck(int null, int err) {
 /* --- compint_to_size ------------------------------------------------------------------ */
 void h_compint_to_size(void) {
     IN_dec in = nondet_IN_dec();
-    V_ASSUME(in.max <= CI_BUF && in.off <= in.max);
+    V_ASSUME(in.max <= CI_BUF);   /* the cursor may lie beyond the limit (in.off > in.max): nothing may be read then */
     V_ASSUME(in.err0 >= 0 && in.err0 <= 2 && !in.zck_null);
-    size_t avail = in.max - in.off;
+    size_t avail = in.off <= in.max ? in.max - in.off : 0;
     /* exact-size object: CBMC's bounds check (ASan natively) is the guard page */
     unsigned char *buf = malloc(avail);
     V_ASSUME(buf != NULL);
@@ -45,14 +45,15 @@ void h_compint_to_size(void) {
     V_COVER(r == 0 && n == 0 && avail >= 10);
     V_COVER(r == 0 && n == 10);
     V_COVER(r == 0 && avail == 0);
+    V_COVER(r == 0 && in.off > in.max);
 }
 
 /* --- compint_to_int ------------------------------------------------------------------- */
 void h_compint_to_int(void) {
     IN_dec in = nondet_IN_dec();
-    V_ASSUME(in.max <= CI_BUF && in.off <= in.max);
+    V_ASSUME(in.max <= CI_BUF);   /* the cursor may lie beyond the limit (in.off > in.max): nothing may be read then */
     V_ASSUME(in.err0 >= 0 && in.err0 <= 2 && !in.zck_null);
-    size_t avail = in.max - in.off;
+    size_t avail = in.off <= in.max ? in.max - in.off : 0;
     unsigned char *buf = malloc(avail);
     V_ASSUME(buf != NULL);
     memcpy(buf, in.b, avail);
